@@ -54,12 +54,15 @@ def main():
     ap.add_argument("--only", nargs="*")
     ap.add_argument("--baseline", action="store_true", help="also build the copy and run the repository's tests")
     ap.add_argument("--tier", default="quick")
+    ap.add_argument("--match", default=None, help="regex the patch name must match (e.g. '-[ef]$')")
     ap.add_argument("--expect", choices=["violation", "silent"], default=None)
     a = ap.parse_args()
     expect = a.expect or ("silent" if "equivalent" in a.dir else "violation")
     rows = []
     touched = set()
     for prop, name, patch in collect(a.dir, a.only):
+        if a.match and not re.search(a.match, name):
+            continue
         tmp = Path(tempfile.mkdtemp(prefix="m17-selftest-"))
         try:
             sh(f"git -C /repo archive HEAD | tar -x -C {tmp}")
@@ -81,6 +84,7 @@ def main():
             concrete = bool(viol) and not any("no-failing-input-found" in l for l in viol)
             verdict = "ok" if got == expect else "UNEXPECTED"
             rows.append((prop, name, f"{verdict}:{got}{'(concrete)' if concrete else ''} rc={rc} {base}", (viol[0] if viol else "")[:160]))
+            print("#", *rows[-1], flush=True)
         finally:
             shutil.rmtree(tmp, ignore_errors=True)
     for prop in sorted(touched):  # regenerate coq/gen from the real tree
